@@ -11,7 +11,9 @@ consumption mode, number of subscriptions, script of `MarketStream::init` outcom
   `mode events | handler`                        (no observation; `handler` appends `.with_error_handler(..)`)
   `subs <n>`                                     (no observation; number of subscriptions handed over)
   `conn fail`  |  `conn ok <elem>* [hang]`   `<elem>` = `i<x>` item, `T<id>` `InvalidSequence` (terminal), `e<id>` `Socket`,
-        `m<id>` `InitialSnapshotMissing`, `v<id>` `InitialSnapshotInvalid` (non-terminal), `d<ms>` latency.
+        `m<id>` `InitialSnapshotMissing`, `v<id>` `InitialSnapshotInvalid`, `n<id>` `Index`, `s0` `SubscriptionsEmpty`,
+        `k<0..5>` `UnsupportedSubKind(SubKind #id)`, `u<0..11>` `Unsupported { mock | simulated, SubKind #(id % 6) }`
+        (all non-terminal), `d<ms>` latency.
         Appends one `init` outcome and prints the whole run of `init_market_stream` on the script so far:
            `ev att <t> <nsubs>` | `ev item <x> <t>` | `ev err <k><id> <t>` | `ev notice <origin> <t>` | `ev handled <k><id> <t>`
            `evn <number of ev lines>`
@@ -28,6 +30,13 @@ def parseElem (s : String) : Option MElem :=
   | 'e', some n => some (.error .socket n)
   | 'm', some n => some (.error .snapshotMissing n)
   | 'v', some n => some (.error .snapshotInvalid n)
+  | 'n', some n => some (.error .index n)
+  -- `SubscriptionsEmpty` has no payload
+  | 's', some 0 => some (.error .subscriptionsEmpty 0)
+  -- the payload is a `SubKind` (six variants)
+  | 'k', some n => if n < 6 then some (.error .unsupportedSubKind n) else none
+  -- the payload is (mock | simulated) x `SubKind`
+  | 'u', some n => if n < 12 then some (.error .unsupported n) else none
   | 'd', some n => some (.delay n)
   | _, _ => none
 
@@ -55,7 +64,8 @@ def parseExch : String → Option Nat
 
 def fmtErr (code : Nat) : String :=
   (match errKindOf code with
-    | .invalidSequence => "T" | .socket => "e" | .snapshotMissing => "m" | .snapshotInvalid => "v")
+    | .invalidSequence => "T" | .socket => "e" | .snapshotMissing => "m" | .snapshotInvalid => "v"
+    | .index => "n" | .subscriptionsEmpty => "s" | .unsupportedSubKind => "k" | .unsupported => "u")
   ++ toString (errIdOf code)
 
 def fmtFin : Fin → String
